@@ -98,6 +98,26 @@ CHECKS = {
                    'enumeration of the implementation (FS fault injection at '
                    'the os/tempfile/io names inside treadmill.fs)',
               engine='boundx+crashx'),
+    'C13': _s('Explicit-state BFS over histories of node events applied to the '
+              'real AppCfgMgr handlers, MonitorContainerCleanup.execute and '
+              'Cleanup.invoke on a real per-world temp directory: cache file '
+              'put/deleted/replaced with the dirwatch notification delivered '
+              'at once or later from a FIFO, .ready flips, manager restart, '
+              'node boot, manager killed after its k-th link operation, '
+              'container exit/abort/oom, lagging tombstones, completion of '
+              'each cleanup link; link invariants after every handler call '
+              'and crash point, reconciliation clauses after every '
+              '_synchronize. 2 instances x 2 generations, <=2 deviations.',
+              '5/C13',
+              note='configure.configure replaced by a stand-in (reads the '
+                   'event file, real gen_uniqueid, creates apps/<unique>/data); '
+                   'runtime.finish replaced by its final rmtree; control_svscan '
+                   'no-op; os.stat of cache files virtualised; no threads or '
+                   'inotify (the harness keeps the FIFO)',
+              tech='explicit-state model checking of the implementation (BFS '
+                   'over event histories on a real temp directory, canonical '
+                   'dedup validated by a bisimulation spot-check, crash-point '
+                   'enumeration inside handlers)'),
     'C14': _s('Explicit-state BFS over allocate/release/collect/owner-appears/'
               'disappears sequences of 2 (quick) / 3 (thorough) owners on the '
               'real VipMgr (/30, /29), RuleMgr, EndpointsMgr and '
